@@ -54,6 +54,35 @@ def constant_initialize(U):
             U.cover(f"initialize[{tag}].cover", P)
 
 
+def constant_init(U):
+    """ConstantInterrupts.__init__: the precondition `dt > 0` of the initialize/next contracts is established by the
+    constructor -- whatever it accepts has a positive period (dt < 0 walks backwards, dt = 0 divides by zero in next)"""
+    for with_start in (False, True):
+        def body(it, with_start=with_start):
+            dt = z3.Real("dt")
+            ts = z3.Real("t_start") if with_start else None
+            obj = it.instantiate(_cls(it, "ConstantInterrupts"), [dt], {"t_start": ts})
+            return obj, dt, ts
+
+        n_ret = 0
+        tag0 = f"t_start={'given' if with_start else 'None'}"
+        for p, res in enumerate(explore_paths(U, body)):
+            P = prem_of(res.ctx)
+            dt = z3.Real("dt")
+            nm = f"Constant.__init__[{tag0}].path{p}"
+            if res.outcome != "return":
+                U.prove(f"{nm}.rejects_only_non_positive_periods", P, z3.Not(dt > 0), info={"exc": str(res.exc)})
+                continue
+            n_ret += 1
+            obj, dt, ts = res.value
+            U.prove(f"{nm}.accepted_dt>0", P, dt > 0,
+                    info={"witness": "ConstantInterrupts(-1): initialize(0) -> 0, next(0.5) -> -1 (earlier than asked, earlier than the previous answer)"})
+            U.prove(f"{nm}.dt_kept", P, to_z3(obj.attrs["dt"]) == dt)
+            U.prove(f"{nm}.t_start_kept", P, z3.BoolVal(obj.attrs["t_start"] is None) if ts is None else to_z3(obj.attrs["t_start"]) == ts)
+            U.cover(f"{nm}.cover", P + [dt > 0])
+        U.prove(f"Constant.__init__[{tag0}].some_periods_are_accepted", [], z3.BoolVal(n_ret > 0))
+
+
 def _const_next(U, clsname, tag):
     """next(t) of ConstantInterrupts / LogarithmicInterrupts from an arbitrary lattice state"""
     log = clsname == "LogarithmicInterrupts"
@@ -378,7 +407,8 @@ def parse_interrupt_dispatch(U):
     for p, res in enumerate(explore_paths(U, body)):
         P = prem_of(res.ctx)
         if res.outcome != "return":
-            U.prove(f"parse_interrupt[number].path{p}.returns_normally", P, z3.BoolVal(False), info={"exc": str(res.exc)})
+            # a number that is a usable period (dt > 0) is never rejected; dt <= 0 has no schedule and may raise
+            U.prove(f"parse_interrupt[number].path{p}.raises_only_for_non_positive_numbers", P, z3.Not(z3.Real("dt") > 0), info={"exc": str(res.exc)})
             continue
         r, dt = res.value
         ok = isinstance(r, Instance) and r.cls is not None and r.cls.name == "ConstantInterrupts"
@@ -415,6 +445,7 @@ def fixed_init_unit(U):
 
 
 UNITS = [
+    ("Constant.__init__", constant_init),
     ("Constant.initialize", constant_initialize),
     ("Constant.next", constant_next),
     ("Logarithmic.__init__", logarithmic_init),
@@ -431,6 +462,7 @@ UNITS = [
 TRUSTED = ["ghost lattice index k and the witness k' = k+1+ceil(..) are contract-side terms; ceil/floor exact over ToInt"]
 ASSUMPTIONS = [
     "FixedInterrupts: the given list is strictly increasing (precondition from the statement)",
+    "ConstantInterrupts/LogarithmicInterrupts initialize/next: dt > 0 (established by the constructor, unit Constant.__init__); Logarithmic: factor >= 1 (statement: growing gaps)",
     "GeometricInterrupts.next: scale > 0, factor > 1 (established by the constructor, unit Geometric.__init__), queries t > 0; power/log axioms as listed",
     "queries need not be monotone for the proved clauses; 'up to round-off' is exact in real arithmetic",
 ]
